@@ -7,5 +7,9 @@ facts = sys.argv[1] if len(sys.argv) > 1 else '/verif/build/facts.json'
 d = json.load(open(facts))
 defs = sorted({b['path'] for b in d['bodies'] if b['kind'] != 'Promoted' and not re.search(r'::\{closure#', b['path'])})
 head = subprocess.check_output(['git', '-C', '/repo', 'rev-parse', 'HEAD'], text=True).strip()
-json.dump({'repo_head': head, 'count': len(defs), 'defs': defs}, open('/verif/spec/known_defs.json', 'w'), indent=0)
+sys.path.insert(0, '/verif/rules')
+import inline
+fps = sorted({inline.closure_fp(b) for b in d['bodies'] if b['kind'] != 'Promoted' and re.search(r'::\{closure#', b['path'])})
+json.dump({'repo_head': head, 'count': len(defs), 'defs': defs, 'closure_fps': fps}, open('/verif/spec/known_defs.json', 'w'), indent=0)
+print(len(fps), 'closure fingerprints')
 print(len(defs), 'defs at', head)
